@@ -23,4 +23,4 @@ _SPEC = {
     "C10": {"c10st": "static / stateful-set membership numbering and IsChanged (Props/C10)"},
 }
 for _p, _m in _SPEC.items():
-    PROPS[_p]["spec_streams"] = {k: v for k, v in _m.items() if k in PROPS[_p]["streams"]}
+    PROPS[_p]["spec_streams"] = dict({k: v for k, v in _m.items() if k in PROPS[_p]["streams"]}, **(PROPS[_p].get("spec_streams") or {}))
